@@ -485,6 +485,12 @@ func readDnsMsgFromBufio(reader *bufio.Reader, timeout time.Duration, conn net.C
 		return nil, 0, err
 	}
 
+	// A response is not client DNS traffic: the caller will not handle it, so
+	// leave its bytes buffered for the fall-through to the normal TCP relay.
+	if msg.Response {
+		return &msg, 0, nil
+	}
+
 	// Consume the data by discarding it
 	_, err = reader.Discard(2 + int(length))
 	if err != nil {
